@@ -5,6 +5,7 @@
 import AmVerif.Model.Machine
 import AmVerif.Model.QueueProto
 import AmVerif.Model.DisposeProto
+import AmVerif.Model.RpcMuts
 import AmVerif.Model.Pipes
 import AmVerif.Model.History
 import AmVerif.Model.Dbg
@@ -133,6 +134,8 @@ structure DState where
   codec : CodecState := {}
   qp : QP.St := { flag := false, queue := 0, pcs := [] }
   dp : DP.St := {}
+  muts : RpcMuts.St := {}
+  mutsFixed : Bool := true
   dpFixed : Bool := true
   pipe : Pipes.Target := {}
   hcfg : Hist.Cfg := {}
@@ -314,6 +317,18 @@ def stepDP (d : DState) (toks : List String) : Option (DState × String) :=
       some ({ d with dp := s' }, showDP s' i)
   | _ => none
 
+/-- per-mutation updates over reconnects (C09): `muts init <fixed>`, `muts tick <k>`, `muts push`, `muts hello`. -/
+def stepMuts (d : DState) (toks : List String) : Option (DState × String) :=
+  let go := fun (st : RpcMuts.Step) =>
+    let s' := RpcMuts.step d.mutsFixed d.muts st
+    some ({ d with muts := s' }, s!"src={s'.src} mirror={s'.mirror}")
+  match toks with
+  | ["muts", "init", fx] => some ({ d with muts := {}, mutsFixed := fx == "1" }, "ok")
+  | ["muts", "tick", k] => go (.tick (k.toNat?.getD 0))
+  | ["muts", "push"] => go .push
+  | ["muts", "hello"] => go .hello
+  | _ => none
+
 /-- pipe commands (C18): `pipes init <new|old> <flat 0|1> <act 0|1>`,
     `pipes deliver <add|rem> <args 0|1>`, `pipes begin`, `pipes end`. -/
 def stepPipes (d : DState) (toks : List String) : Option (DState × String) :=
@@ -492,6 +507,9 @@ def stepLine (d : DState) (line : String) : DState × String :=
   | some r => r
   | none =>
   match stepDP d toks0 with
+  | some r => r
+  | none =>
+  match stepMuts d toks0 with
   | some r => r
   | none =>
   match stepHelpers toks0 with
